@@ -65,7 +65,7 @@ Print Assumptions C05_separated_rewards.
 From CR Require Import Proofs.StratSolveP.
 Theorem C05_solve_strategies : forall (T : Type) (K : ops T), lawful_order K ->
   forall fuel (g : game (T:=T)) prune r i,
-  wf_game K g -> solve_fuel K fuel g prune = Ok r -> i < nstates g ->
+  wf_game K g -> solve_fuel K fuel g prune = Ok r -> (i < nstates g)%nat ->
   nth i (r_final r) None =
   let vals := vals_of K (r_rewards r) (nth i (r_pruned r) []) in
   match nth i (g_players g) PR with
